@@ -124,3 +124,9 @@ Definition xpath_core_library : list string :=
    "string-length"; "normalize-space"; "translate";
    "boolean"; "not"; "true"; "false"; "lang";
    "number"; "sum"; "floor"; "ceiling"; "round"].
+
+(** C13 / C14: every append and every sort.Sort in exec/ operates on a slice the
+    function allocated itself (or received from callers that all pass such a slice);
+    at least 30 sites must have been found, so that an empty extraction cannot pass *)
+Definition check_slice_discipline (sites : list (string * string * bool)) : bool :=
+  forallb (fun s => snd s) sites && Nat.leb 30 (length sites).
